@@ -58,6 +58,15 @@ PROPS["C17"] = {
     "note": "Spec.startTags is my transcription of WHATWG 13.2.5 (data, tag, attribute, comment, bogus comment, markup declaration, DOCTYPE states); it is cross-checked against golang.org/x/net/html's tokenizer on the generated runs (never as a verdict). It does not model RAWTEXT/RCDATA/script states: clause (b) is only evaluated for predicates that reject every raw-text element, for which those states are unreachable exactly when (b) holds.",
 }
 
+PROPS["C11"] = {
+    "modules": ["CM.Props.C11"],
+    "level": "proof",
+    "design_ref": "DESIGN.md §6 C11",
+    "technique": "Lean 4 invariant proof: the Go closerLoop with its openersBottom cache = CommonMark's process-emphasis without the cache, for every delimiter stack (impl_eq_spec), over the regenerated isEmphasisDelimiterMatch / openersBottomIndex; flags_eq_spec; + structure correspondence on all strings <= 8/9 over {*,_,a,SP,.} and Unicode neighbours",
+    "text": "Model.processEmphasis true is the loop of inlines.go (stack indices, per-class lower bounds, clamping after deletions, original length n for the multiple-of-3 rule, current length from the node); it calls the Lean terms regenerated from the Go source for isEmphasisDelimiterMatch and openersBottomIndex. impl_eq_spec proves, for every stack (any mixture of *, _, link delimiters, any lengths and flags) and every stack_bottom, that it yields the same match events as the same procedure searching down to stack_bottom every time - i.e. CommonMark 0.30's process-emphasis without openers_bottom. The proof is the invariant 'below bound k nothing matches a closer of class k' (Inv), preserved by every branch including deletions (procStep_inv), plus match_depends_on_closer_class proved over the generated predicates. flags_eq_spec: the assigned can-open/can-close flags equal the spec's left/right-flanking rules for every pair of neighbouring code points. Tie: the implementation's emphasis tree for every string <= 8 (quick) / 9 (thorough) over {*,_,a,SP,.}, <= 5/6 with a non-ASCII letter, NBSP and non-ASCII punctuation, and random lines is compared with the model's and the specification's; the generated predicates are compared on their whole finite domain.",
+    "note": "The tree surgery (wrap/remove) is modelled by applyEvent on a flat node list and tied by correspondence only; unicode.Is/In enter as parameters (UExt) whose values for the runes of each input are supplied by the real library at run time. The fuel of procLoop (2*total length + 2*stack size + 2) is shown adequate by the correspondence run, not yet by a theorem.",
+}
+
 MONITOR_NOTE = "No theorem about the parser model backs this property yet (the block/inline parser model is not in Lean at this commit): the property's statement is an executable Lean definition (lean/CM/Spec) evaluated by the Lean driver on every tree the real parser returns for the generated inputs. That is monitoring against a formal specification, not a proof; it is claimed as 'other'."
 
 def monitored(pid, spec, what):
